@@ -4,6 +4,12 @@ mod castle_rights;
 pub mod fen;
 mod iter;
 pub mod raw;
+#[cfg(rustyyato_chess_verif)]
+mod verif;
+#[cfg(rustyyato_chess_verif)]
+pub use castle_rights::CastleRights;
+#[cfg(rustyyato_chess_verif)]
+pub use iter::MoveGen;
 
 use std::{
     fmt::{Debug, Write},
